@@ -213,6 +213,13 @@ func checkC17(c c17Case) string {
 	}
 	// the readers of the standard library that know their size or can seek are deliveries like any other
 	std := map[string]io.Reader{"bytes.Buffer": bytes.NewBuffer(append([]byte(nil), c.Doc...)), "bufio.Reader": bufio.NewReader(bytes.NewReader(c.Doc))}
+	if !c.Seekable && c.Format != "ts" {
+		// buffered readers whose buffer is smaller than a line, a block or a header of the format (16 bytes is the
+		// smallest bufio allows), over everything at once and over the case's own delivery schedule
+		std["bufio.Reader with a 16-byte buffer"] = bufio.NewReaderSize(bytes.NewReader(c.Doc), 16)
+		std["bufio.Reader with a 100-byte buffer"] = bufio.NewReaderSize(bytes.NewReader(c.Doc), 100)
+		std["bufio.Reader with a 1000-byte buffer over the scheduled delivery"] = bufio.NewReaderSize(c.reader(c.Chunks, c.WithEOF), 1000)
+	}
 	if c.Seekable {
 		std = map[string]io.Reader{"bytes.Reader": bytes.NewReader(c.Doc), "strings.Reader": strings.NewReader(string(c.Doc))}
 	} else if c.Format == "ts" {
